@@ -5,17 +5,21 @@ ENTRY = {'coq_dir': 'C02',
  'consts': ['MAX_NOISE_MSG_LEN', 'NOISE_EXTRA_ENCRYPT_SPACE', 'MAX_FRAME_LEN', 'MAX_READ_AHEAD_FACTOR', 'MAX_WRITE_BUFFER_SIZE'],
  'nontrivial_min_trace': 40,
  'rule': 'seeded random cases: read-ahead factor in {1,2,3,5}, write-buffer size in {1,2,4}; 1-10 poll_write calls with sizes from '
-         '{1,2,3,15,16,17,...,16384}, MAX_FRAME_LEN-1/+0/+1, 2x and 3x MAX_FRAME_LEN +-1, 65520/65521, 131040/131041, 3*65520+1, random up '
-         'to 200000, interleaved poll_flush, against a carrier that accepts 1/2/17/.../65538/all bytes or returns Pending per script; the '
-         'recorded ciphertext is left alone (55%) or one frame has a header/body byte flipped, is dropped, replayed, swapped with its '
+         '{0,1,2,3,15,16,17,...,16384}, MAX_FRAME_LEN-1/+0/+1, 2x and 3x MAX_FRAME_LEN +-1, 65520/65521, 131040/131041, 3*65520+1, random '
+         'up to 200000, 10% of them as poll_write_vectored with empty and extra buffers, interleaved poll_flush and poll_close (early, '
+         'repeated, followed by further calls), against a carrier whose every call (write/flush/close) follows a script: accept '
+         '1/2/17/.../65538/all bytes, Pending, Ok(0), or an I/O error (ConnectionReset/BrokenPipe/TimedOut/Other), BrokenPipe once closed; '
+         'the recorded ciphertext is left alone (55%) or one frame has a header/body byte flipped, is dropped, replayed, swapped with its '
          'successor, or the stream is truncated; the reader side is polled with buffer sizes from '
          '{0,1,2,15,16,17,4096,MAX_FRAME_LEN-16..+1,65504,65519,65520,70000,random} while the carrier delivers single bytes, 1-3 bytes, '
-         'frame-sized +-1, max_read-aligned +-2 or random chunks with Pending injections, then drains to EOF. A real handshake() pair is '
-         "made per case. After EVERY poll_write/poll_flush/poll_read the result and the socket's framing state (write_state, offset, "
-         'encrypted_len; read_state tag and fields, nread, offset, current_frame_size, bytes pulled from the carrier) are compared with '
-         'the extracted Coq model; the harness checks the content of every delivered chunk against the position-dependent byte pattern '
-         'that was written; compiled constants and buffer lengths head every trace. Non-trivial = trace of >= 40 numbers; distinct = '
-         'distinct (case, trace) pairs',
+         'frame-sized +-1, max_read-aligned +-2 or random chunks with Pending, zero-length reads and I/O errors injected at random calls '
+         '(start, mid-header, mid-frame), then drains to EOF; BOTH sockets are polled on after every error and EOF (only a panic ends a '
+         'run). A real handshake() pair is made per case. After EVERY poll_write/poll_write_vectored/poll_flush/poll_close/poll_read the '
+         "result and the socket's framing state (write_state, offset, encrypted_len, bytes with the carrier, carrier closed; read_state "
+         'tag and fields incl. Failed, nread, offset, current_frame_size, bytes pulled) and whether the last carrier call of that poll '
+         'returned Pending are compared with the extracted Coq model; the harness checks the content of every delivered chunk against '
+         'the position-dependent byte pattern that was written; compiled constants and buffer lengths head every trace. Non-trivial = '
+         'trace of >= 40 numbers; distinct = distinct (case, trace) pairs',
  'trusted_base': ['AEAD abstraction: a slice decrypts iff it is exactly the k-th ciphertext of the peer and k is the receive counter '
                   "(ChaChaPoly integrity and snow's nonce handling are assumed, exercised by the tamper stream of the harness, not proved)",
                   "snow's message-size checks (payload + 16 <= 65535 on write, message <= 65535 on read, output buffer large enough) are "
@@ -23,19 +27,30 @@ ENTRY = {'coq_dir': 'C02',
                   'read_buffer[0..nread) is modelled as a contiguous window of the wire (position of its first byte); the one-byte copy of '
                   'reset_read_state is therefore correct by construction in the model and checked on real bytes by the harness only',
                   'payload bytes are stream positions; usize arithmetic is unbounded',
-                  'the scripted in-memory carrier of the harness (Pending without wake-up, EOF at end of script) stands for the transport'],
- 'level_text': 'Proof: the reader state machine (ReadData/ReadFrameLen/ProcessNextFrame with read-ahead window, auxiliary tail and '
+                  'the scripted in-memory carrier of the harness stands for the transport: one script entry per carrier call, EOF for ever '
+                  'at the end of the read script, BrokenPipe for writes after its poll_close returned Ready; "a carrier call that returns '
+                  'Pending has registered the waker" is the AsyncRead/AsyncWrite contract and is assumed of the carrier',
+                  'poll_write_vectored is the default implementation of futures::AsyncWrite (first non-empty buffer); the model states that'],
+ 'level_text': 'Proof: the reader state machine (ReadData/ReadFrameLen/ProcessNextFrame/Failed with read-ahead window, auxiliary tail and '
                '0/1-byte carry-over) keeps an inductive invariant (window/cursor alignment on frame boundaries, all slice bounds) for '
-               'every wire, chunking, Pending pattern, buffer-size sequence and factor >= 1; hence delivered chunks are consecutive pieces '
-               'of the written stream, nothing of or after a non-authentic frame is delivered, an honest wire never yields InvalidData and '
-               'is delivered completely by EOF; the writer frames exactly the accepted bytes in 1..MAX_FRAME_LEN-byte frames, never fails, '
-               'flush = Ready empties the buffer; end-to-end composition. The model is tied to noise/mod.rs by a per-poll differential run '
-               'with state dumps over a real handshake pair.',
+               'every wire, every carrier behaviour (chunking, Pending, zero-length reads, I/O errors and EOF at any point), every '
+               'buffer-size sequence incl. empty buffers and factor >= 1, with the socket polled on after errors; hence no panic, delivered '
+               'chunks are consecutive pieces of the written stream, nothing of or after a non-authentic frame is delivered, after '
+               'InvalidData every later poll is InvalidData (fail-stop), an honest wire never yields InvalidData and is delivered completely '
+               'by EOF; the writer (poll_write, vectored, poll_flush, poll_close, used on after carrier errors) frames exactly the accepted '
+               'bytes in 1..MAX_FRAME_LEN-byte frames, never panics or fails by itself, flush = Ready empties the buffer, close = Ready '
+               'means everything accepted was handed to the carrier before it was closed and nothing reaches it afterwards; Pending is only '
+               'returned after the carrier returned Pending (no lost wake-up) on both sides; end-to-end composition. The model is tied to '
+               'noise/mod.rs by a per-poll differential run with state dumps over a real handshake pair.',
  'level_note': 'Trusted: Coq kernel, ExtrOcamlBasic extraction, harness and hooks; AEAD and snow limits abstract; buffer content modelled '
-               'by position. Found and fixed: MAX_FRAME_LEN was 65520 (> 65535-16), so every poll_write of >= 65520 bytes failed with '
-               'InvalidData (fix commit in /repo; witness corpus/C02/w01_write_65520.case; C02_unfixed_refuted). Not modelled: behaviour '
-               'of a socket polled again after it returned an error (the real code would panic on `expect`), poll_close, carrier I/O '
-               'errors, wake-ups.',
+               'by position; the carrier contract (Pending registers the waker). Found and fixed (two `fix:` commits in /repo): (1) '
+               'MAX_FRAME_LEN was 65520 (> 65535-16), so every poll_write of >= 65520 bytes failed with InvalidData (witness '
+               'corpus/C02/w01_write_65520.case; C02_unfixed_refuted); (2) after poll_read had returned InvalidData for a frame that does '
+               'not decrypt, the next poll_read panicked on expect("`frame_size` to exist") (witness corpus/C02/w03_repoll_after_error.case); '
+               'the state machine now has a sticky Failed state. Observed, not a violation of the property text: NoiseSocket has no closed '
+               'state of its own — a poll_write after a completed poll_close is accepted into the encrypt buffer and only the next call '
+               'fails with the carrier\'s error; those bytes never reach the peer (C02_close_flushes states exactly this). Not modelled: '
+               'the tracing side effects, poll_close of the read half (there is none), concurrent use of the two halves.',
  'assumptions': ['noise_read_ahead_frame_count >= 1 and noise_write_buffer_size >= 1',
                  'frame headers are 16-bit',
-                 'after the first error the socket is not polled again']}
+                 'the carrier honours the AsyncRead/AsyncWrite contract (Pending registers the waker); its errors are reported as they come']}
